@@ -91,6 +91,11 @@ OPS = [
     ("position-rev", r"\.position\(", ".rposition("),
     ("find-last", r"\.find\(", ".filter(|_| true).last().into_iter().find("),
     ("min1", r"\+= 1;", "+= 2;"),
+    ("q-unwrap", r"(to_str\([^;?]*?\))\?", r"\1.unwrap()"),
+    ("err-continue", r"Err\(e\) => return Err\([^;]*\),", "Err(_) => continue,"),
+    ("err-break", r"Err\(e\) => return Err\([^;]*\),", "Err(_) => break,"),
+    ("eof-continue", r"Ok\(Event::Eof\) => break,", "Ok(Event::Eof) => continue,"),
+    ("q-ok", r"\)\?;", ").ok();"),
     ("clone-default", r"= self\.children\.clone\(\);", "= self.children.iter().take(64).cloned().collect::<Vec<_>>();"),
 ]
 
